@@ -1,5 +1,6 @@
 """C05 (kernel) — style interning never merges different components: the interning keys are injective."""
 import z3
+import re
 from engine.core import *
 from engine.check import Harness, concrete
 from engine import native, cryptomodel as cm
@@ -305,7 +306,89 @@ class ColumnsTrip(Harness):
             before, after = _re.sub(r'bf=\d', '', before), _re.sub(r'bf=\d', '', after)
         return before != after, 'column settings before save %r, after reload %r' % (before, after)
 
+class SheetRows(Harness):
+    """rows keep their height and hidden state: the row loop of the sheet-part writer"""
+    name = 'sheet_rows.written'; property_id = 'C05'
+    entry = ['writer::xlsx::worksheet::write', 'structs::row::Row::write_to']
+    classes = {}
+    def __init__(self, tier):
+        self.nrows = 2 if tier == 'quick' else 3
+        self.doc = 'the real sheet-part writer (writer::xlsx::worksheet::write, non-row children stubbed) on a worksheet with %d row records at symbolic distinct row numbers 1..%d, each hidden or not, with a custom height or not, holding one text cell or no cell at all: every row record that has a setting or a cell comes out as exactly one <row> element, in ascending order, carrying its number, its hidden flag and its height' % (self.nrows, self.nrows + 2)
+        self.bounds = {'rows': self.nrows, 'row_numbers': [1, self.nrows + 2], 'hidden': [False, True], 'height': ['default', 12.75], 'cell_in_row': [False, True], 'reader': 'Row::set_attributes is covered by row.write_read'}
+    def setup(self, it):
+        from engine import xmlmodel
+        cm.install(it); cm.install_digests(it); xmlmodel.install(it); xmlmodel.install_events(it)
+    def run(self, it, ctx, res):
+        from engine import xmlmodel, containers
+        from harness.c12 import install_writer_stubs, Parts
+        from harness.c07 import WS, new_sheet
+        it.world = cm.World()
+        span = self.nrows + 2
+        nums = [ctx.sym_int('row%d' % i, 1, span) for i in range(self.nrows)]
+        for i in range(self.nrows):
+            for j in range(i): ctx.assume(nums[i] != nums[j])
+        spec = [{'hidden': ctx.branch(ctx.sym_bool('hidden%d' % i)), 'height': ctx.branch(ctx.sym_bool('height%d' % i)), 'cell': ctx.branch(ctx.sym_bool('cell%d' % i))} for i in range(self.nrows)]
+        info = {'spec': spec}
+        captured = []
+        try:
+            ws = new_sheet(it)
+            for i in range(self.nrows):
+                r = it.call(WS + 'get_row_dimension_mut', [Ref(ws), iref(nums[i])])
+                if spec[i]['hidden']: it.call('structs::row::Row::set_hidden', [r, True])
+                if spec[i]['height']: it.call('structs::row::Row::set_height', [r, 12.75])
+                if spec[i]['cell']:
+                    cell = it.call(WS + 'get_cell_mut::<(u32, u32)>', [Ref(ws), [1, nums[i]]])
+                    it.call('structs::cell::Cell::set_value_string::<&str>', [cell, sref('x')])
+            sst = Box_(it.call('<structs::shared_string_table::SharedStringTable as std::default::Default>::default', []))
+            sty = Box_(it.call('<structs::stylesheet::Stylesheet as std::default::Default>::default', []))
+            install_writer_stubs(it, Parts())
+            it.stub_patterns = [(re.compile(r'structs::writer_manager::WriterManager::<.*>::add_writer(::<.*>)?'), lambda it_, callee, wm, path, writer: (captured.append(deref_all(writer)), OK([]))[1])] + it.stub_patterns
+            it.stubs = {'structs::stylesheet::Stylesheet::set_style': lambda it_, st, style: 0}
+            it.call('writer::xlsx::worksheet::write::<std::io::Cursor<std::vec::Vec<u8>>>', [iref(1), Ref(ws), Ref(sst), Ref(sty), False, Ref(Box_('WRITERMNG'))])
+        except Panic as e:
+            self.fail(ctx, res, 'no-panic', str(e), info=info); return
+        finally:
+            it.stub_patterns = []; it.stubs = {}
+        if len(captured) != 1: self.fail(ctx, res, 'sheet-part-written', '%d parts' % len(captured), info=info); return
+        order = xmlmodel.event_order(); rows = []
+        for ev in captured[0].events:
+            nm = ev.variant if isinstance(ev.variant, str) else order[ev.variant]
+            el = deref_all(ev.fields[0]) if ev.fields else None
+            if nm in ('Start', 'Empty') and getattr(el, 'name', None) == 'row': rows.append({k: v for k, v in el.attrs})
+        # a row record without any setting and without a cell has nothing a user can observe: it may or may not be written
+        need = [i for i in range(self.nrows) if spec[i]['hidden'] or spec[i]['height'] or spec[i]['cell']]
+        self.oblige(ctx, res, 'no-row-element-invented', len(need) <= len(rows) <= self.nrows, info=dict(info, rows=len(rows)))
+        if not (len(need) <= len(rows) <= self.nrows): return
+        from harness.c17 import chars_eq
+        def num_of(a):
+            cs = a.get('r', [])
+            if not cs: return None
+            v = 0
+            for c in cs: v = v * 10 + (c - 48)
+            return v
+        got = [num_of(a) for a in rows]
+        asc = z3.And(*[got[i] < got[i + 1] for i in range(len(got) - 1)]) if len(got) > 1 else True
+        self.oblige(ctx, res, 'rows-ascending', asc, info=info)
+        for i in need:
+            conds = []
+            for a, g in zip(rows, got):
+                hid = ''.join(chr(c) for c in a.get('hidden', [])) == '1'; ht = ''.join(chr(c) for c in a.get('ht', []))
+                okattrs = (hid == spec[i]['hidden']) and ((ht == '12.75') == spec[i]['height'])
+                conds.append(z3.And(g == nums[i], okattrs) if okattrs else False)
+            conds = [c for c in conds if c is not False]
+            self.oblige(ctx, res, 'row-carries-its-hidden-flag-and-height', z3.Or(*conds) if conds else False, info=dict(info, row=i))
+    def case_of(self, v):
+        m = v['model']
+        c = {'rows': [{'num': m['row%d' % i], 'hidden': bool(m.get('hidden%d' % i)), 'height': bool(m.get('height%d' % i)), 'cell': bool(m.get('cell%d' % i))} for i in range(self.nrows)], 'oblig': v['oblig']}
+        c['show'] = dict(c); return c
+    def confirm(self, case, profile):
+        spec = ';'.join('%d,%d,%d,%d' % (r['num'], r['hidden'], r['height'], r['cell']) for r in case['rows'])
+        r = native.run_cases([['rows_roundtrip', spec]], profile, timeout_each=60)[0]
+        if r[0] != 'ok': return True, 'rows %r -> %r' % (case['rows'], r)
+        before, after = native.unhx(r[1][0]), native.unhx(r[1][1])
+        return before != after, 'row settings before save %r, after reload %r' % (before, after)
+
 def harnesses(tier):
     from harness import rt
-    return [FontKey(tier), FillKey(tier), NumFmtTrip(tier), NumFmtIntern(tier), ColumnsTrip(tier)] + rt.harnesses_for('C05', tier)
+    return [FontKey(tier), FillKey(tier), NumFmtTrip(tier), NumFmtIntern(tier), ColumnsTrip(tier), SheetRows(tier)] + rt.harnesses_for('C05', tier)
 OPTIONS = {'want_smir': True}
